@@ -157,7 +157,7 @@ Section Spec.
     | Some vs =>
         match line_col code (node_start vs), str_slice code (node_start vs) (node_end vs) with
         | Some (l, c), Some vt =>
-            Emit (mkEntry (node_start vs) l c (parse_u32 (trim (p_is_ws P) vt)) (short_name name)
+            Emit (mkEntry (node_start vs) l c (ref_value P vt) (short_name name)
                           KStructuredPreExisting None None)
         | _, _ => StepPanic
         end
